@@ -44,10 +44,10 @@ META["C07"] = {
   "note": "Static back end (no solver); external libraries assumed not to mutate their arguments; dtype-level effects (integer arrays) outside the model.",
   "technique": "contract-based verification of frame conditions: syntactic effect inference over the real AST (modifies-clauses checked by fix-point), run-time byte comparison as bounded twin"}
 META["C08"] = {
-  "text": "Definedness on the domain and agreement with the closed form are proved (C06 obligations). On top of the closed forms, symmetry, non-negativity and zero self-distance of every metric the fixed axiom table marks, and the triangle inequality of the seven metrics whose summand satisfies it pointwise, are discharged as z3 lemmas for every vector length. Finiteness in floating point, the Minkowski-type and Soergel triangle inequalities (cited) and a second pass over the whole table on the compiled functions are bounded run-time contracts.",
+  "text": "Definedness on the domain and agreement with the closed form are proved (C06 obligations). On top of the closed forms, symmetry, non-negativity and zero self-distance of every metric the fixed axiom table marks, and the triangle inequality of the seven metrics whose summand satisfies it pointwise, are discharged as z3 lemmas for every vector length; the Minkowski-type triangle inequalities of euclidean, average_euclidean, matusita, hellinger and log_euclidean are proved for every vector length in Lean 4 + Mathlib (lemmas/Minkowski.lean, re-checked by `lean` on every run). Finiteness in floating point, the Soergel triangle inequality (cited) and a second pass over the whole table on the compiled functions are bounded run-time contracts.",
   "design_ref": "DESIGN.md §3 C08, §7",
   "note": "Level `other`: proved / cited / bounded clauses itemised in the evidence; log and sqrt by assumed properties; reductions by their external contract.",
-  "technique": "deductive lemmas over the closed forms (pyvc.vecexpr + z3) on top of the C06 equalities; bounded run-time contracts for float finiteness and the cited inequalities"}
+  "technique": "deductive lemmas over the closed forms (pyvc.vecexpr + z3; five Minkowski-type inequalities in Lean 4 + Mathlib) on top of the C06 equalities; bounded run-time contracts for float finiteness and the cited inequality"}
 META["C12"] = {
   "text": "KNNSubgraph.create_arcs, calculate_pdf, eliminate_maxima_height and Subgraph.destroy_arcs are under contract. create_arcs: the insertion-scan invariant (buffer sorted, filler slots at FLOAT_MAX, every buffer entry an offered sample with its weight, a ghost slot map locating every offered sample either in the buffer or - when the buffer is full - at least as far as the last entry), the bubble invariant relative to the snapshot at the start of the insertion, and the descending collection loop give the statement for every sample: exactly min(k, n-1) distinct other samples, ascending distances, nobody outside closer than the farthest neighbour, radius, per-rank maxima and density bound exact (upper bound + ghost witness), 1e-5 fallback. calculate_pdf: estimate = PSUM/(k+1) with PSUM a ghost function defined by primitive recursion, min/max with witnesses, affine map onto [1, MAX_DENSITY], cost = density - 1, constant = 2/9 of the bound. All 600+ obligations discharged by z3 for all n, k (also k > n-1), tie patterns, both weight sources.",
   "design_ref": "DESIGN.md §3 C12",
